@@ -144,6 +144,22 @@ def run(ck):
             ck.ob("CALLEE", p0, "digit-recoding-without-saturating-arithmetic", not sat,
                   "no saturating/clamping integer operation" if not sat else "%s in the scalar recoding: at the saturation point a carry is lost and the result is off by a multiple of the base" % sat[0][1]["f"]["name"], f.loc(sat[0][0]) if sat else f.loc(), nontrivial=False)
     ck.floor("CALLEE", "multi-exponentiation functions", nme, 2)
+    # reconstruction interpolates over ALL the shares it is given, at their own x-coordinates: nothing is filtered, skipped or
+    # truncated between the argument and the Lagrange sum (dropping a share that happens to be zero changes the node set and with
+    # it every coefficient)
+    nrev = 0
+    for p0 in sorted(cb_.paths()):
+        if not re.search(r"id::secret_sharing::(reveal|reveal_in_group)$", p0):
+            continue
+        for b in cb_.get_all(p0):
+            f = Fn(b)
+            nrev += 1
+            cut = f.calls(r"Iterator::(filter|filter_map|take|skip|take_while|skip_while|step_by)$|::retain$|::truncate$|::dedup[a-z_]*$")
+            lag = f.calls(r"Iterator::fold$|Iterator::sum$|Iterator::map$")
+            ck.ob("COV", p0, "all-shares-interpolated", not cut and len(lag) >= 1,
+                  "every given share takes part in the interpolation" if not cut else
+                  "%s is applied to the shares before interpolating: the Lagrange coefficients are computed for a different node set" % cut[0][1]["f"]["name"], f.loc(cut[0][0]) if cut else f.loc(), nontrivial=False)
+    ck.floor("COV", "reconstruction functions", nrev, 2)
     # threshold sharing: the polynomial has degree EXACTLY threshold - 1, i.e. its highest coefficient is sampled non-zero
     # (with a zero leading coefficient fewer than threshold shares already determine the secret)
     f = getfn(ck, "rs", CB, CB + "::id::secret_sharing::share")
